@@ -7,6 +7,7 @@ package vh
 // spec/cli/AttackCmdTrace.tla.
 
 import (
+	"bytes"
 	"encoding/base64"
 	"encoding/json"
 	"fmt"
@@ -252,6 +253,9 @@ func TestDrv_E2E(t *testing.T) {
 	for k, c := range cases {
 		d := filepath.Join(dir, fmt.Sprintf("e2e%03d", k))
 		must(os.MkdirAll(d, 0o755))
+		if k%3 == 1 { // an output file left over from an earlier run, longer than the new output
+			must(os.WriteFile(filepath.Join(d, "out.bin"), bytes.Repeat([]byte("stale output of an earlier run\n"), 40000), 0o644))
+		}
 		ops = append(ops, c.op(d))
 	}
 	res, err := runMain(dir, ops)
